@@ -37,9 +37,15 @@ TYPES: dict[str, dict[str, tuple[str, str]]] = {
         'P': ('a', 'a'), 'k2': ('a', 'a'), 'IL': ('L', 'L'), 'kL': ('L', 'L'),
         'Dr': ('T', 'T'), 'Drt': ('T', 'T'), 'RwT': ('T', 'S'), 'ClT': ('S', 'T'),
     },
+    # user-extension domain: toy operators and toy AbstractBinaryRules defined in the harness; the only way to reach the
+    # driver's "a rule produced a scalar => relocate it and restart" branch, which no library rule exercises
+    'EXT': {
+        'U': ('a', 'a'), 'V': ('a', 'a'), 'W': ('a', 'a'), 'K': ('a', 'a'), 'P': ('a', 'a'), 'I': ('a', 'a'),
+        'G': ('a', 'b'), 'Gt': ('b', 'a'), 'Kb': ('b', 'b'), 'Ub': ('b', 'b'), 'Vb': ('b', 'b'),
+    },
 }
 
-EXACT = {'POL': False, 'IDX': True, 'INV': False, 'BLK': False}
+EXACT = {'POL': False, 'IDX': True, 'INV': False, 'BLK': False, 'EXT': True}
 
 
 def typed_chains(domain: str, max_len: int, min_len: int = 1):
@@ -156,6 +162,60 @@ def build(domain: str) -> dict:
             'DgX': BlockDiagonalOperator([Dg]), 'ClN': BlockColumnOperator([[Q, P]]),
             'P': P, 'k2': hom(2.0, a), 'IL': IdentityOperator(L), 'kL': hom(-2.0, L),
             'Dr': Dr, 'Drt': Dr.T, 'RwT': BlockRowOperator([R, R.T]), 'ClT': BlockColumnOperator([R.T, R]),
+        }
+    elif domain == 'EXT':
+        from furax._base.core import AbstractLinearOperator, square
+        from furax._base.rules import AbstractBinaryRule
+
+        a, b = sds(2), sds(3)
+        spaces = {'a': a, 'b': b}
+
+        @square
+        class ToyScale(AbstractLinearOperator):
+            k: float
+            _in_structure: object = __import__('equinox').field(static=True)
+
+            def mv(self, x):
+                return jax.tree.map(lambda leaf: self.k * leaf, x)
+
+            def in_structure(self):
+                return self._in_structure
+
+        class ToyU(ToyScale):
+            pass
+
+        class ToyV(ToyScale):
+            pass
+
+        class ToyW(ToyScale):
+            pass
+
+        class ToyW2(ToyScale):
+            pass
+
+        class ToyScalarRule(AbstractBinaryRule):
+            """U @ V -> a scalar operator (sound: both are scalings)."""
+
+            left_operator_class = ToyU
+            right_operator_class = ToyV
+
+            def apply(self, left, right):
+                return [HomothetyOperator(jnp.asarray(left.k * right.k, f32), right.in_structure())]
+
+        class ToyPairRule(AbstractBinaryRule):
+            """V @ W -> [W2, U]: a rule returning two operands, the second of which can react with a V on its right."""
+
+            left_operator_class = ToyV
+            right_operator_class = ToyW
+
+            def apply(self, left, right):
+                return [ToyW2(right.k, right.in_structure()), ToyU(left.k, right.in_structure())]
+
+        atoms = {
+            'U': ToyU(3.0, a), 'V': ToyV(5.0, a), 'W': ToyW(7.0, a), 'K': hom(2.0, a), 'P': dense([[1.0, 2.0], [3.0, 5.0]], a),
+            'I': IdentityOperator(a), 'G': dense([[1.0, 2.0], [3.0, 5.0], [-1.0, 4.0]], a),
+            'Gt': DenseBlockDiagonalOperator(arr([[1.0, 0.0, 2.0], [-1.0, 3.0, 1.0]]), b, 'ij,j->i'),
+            'Kb': hom(-3.0, b), 'Ub': ToyU(2.0, b), 'Vb': ToyV(-1.0, b),
         }
     else:
         raise KeyError(domain)
